@@ -2,6 +2,7 @@
    string keep their Coq datatypes). *)
 Require Extraction.
 Require ExtrOcamlBasic.
-From JS Require Import Base Bytes Scanner ScanRun.
+From JS Require Import Base Bytes Scanner ScanRun Directive Core Expand Entry.
+From JS Require DirectiveTables.
 Extraction Blacklist String List Nat Bool.
-Extraction "model.ml" scan_case state_name bytes_of_string.
+Extraction "model.ml" scan_case state_name bytes_of_string tree_case DirectiveTables.dir_keywords.
